@@ -152,6 +152,11 @@ u64 gd_{k}[4] = {{ {k}, {consts[0] + 100 * k}, {k * 7}, 9 }};
                 w(f"    push %rax\n    call cd_{m}\n    pop %rcx\n    add %rcx, %rax\n")
         w(f"    mov %fs:tv_{k}@tpoff, %rcx\n    add %rcx, %rax\n    addq $1, %fs:tv_{k}@tpoff\n")
         w("    lea .LCs(%rip), %rcx\n    movzbl 1(%rcx), %ecx\n    add %rcx, %rax\n")
+        weak_undef = r.chance(1, 2)
+        if weak_undef:
+            # a weak reference nobody satisfies: zero in the direct link, and still weak (hence still zero) after any partial link
+            P.feat.add("weak-undefined")
+            w("    add wk_ptr(%rip), %rax\n")
         w(f"    add $abs_{k}, %rax\n")
         w(f"    mov hp_{k}(%rip), %rcx\n    add (%rcx), %rax\n")
         w("    mov %rax, acc(%rip)\n    ret\n")
@@ -163,6 +168,8 @@ u64 gd_{k}[4] = {{ {k}, {consts[0] + 100 * k}, {k * 7}, 9 }};
         w(f'    .section .init_array{prio},"aw",@init_array\n    .balign 8\n    .quad init_l\n')
         w(f"    .data\n    .balign {al_d}\n    .byte {k}\n    .balign 8\nldata:\n    .quad {c2}, {c3}, {k}\n")
         w("lptr:\n    .quad lro+8\n")
+        if weak_undef:
+            w("    .weak nowhere_weak\nwk_ptr:\n    .quad nowhere_weak\n")
         w(f"    .globl gd_{k}\n    .type gd_{k}, @object\ngd_{k}:\n    .quad {k}, {c1}, {c2 + k}, 5\n    .size gd_{k}, 32\n")
         w(f"    .globl hv_{k}\n    .hidden hv_{k}\nhv_{k}:\n    .quad {c3 + 1}\nhp_{k}:\n    .quad hv_{k}\n")
         w(f"    .section .rodata\n    .balign {al_r}\n    .byte 1\n    .balign 8\nlro:\n    .quad {c1 + 1}, {c2 + 2}, {c3 + 3}\n")
